@@ -4,6 +4,7 @@ import (
 	"fmt"
 	"math/rand/v2"
 	"strconv"
+	"strings"
 
 	"verif/harness/jx"
 )
@@ -300,6 +301,15 @@ func sysSpecs() []sysSpec {
 			})
 		}
 	}
+	for ri, rel := range CollisionRels {
+		for ki, kind := range CollisionSchemaKinds {
+			for wi, where := range collisionWhereSets() {
+				rel, kind, where := rel, kind, where
+				used := (ri+ki+wi)%2 == 0
+				add(fmt.Sprintf("collisionx/%s/%s/%s/used=%v", rel, kind, strings.Join(where, "+"), used), func(b *Bundle) { b.CollisionX(rel, kind, where, used) })
+			}
+		}
+	}
 	// several callers of one anonymous pointer
 	for _, t := range []string{"anonProperty", "anonItems", "anonAllOf", "anonSharedParam", "anonSharedResponse"} {
 		t := t
@@ -380,8 +390,13 @@ func RndBundle(rng *rand.Rand, maxFeatures int) *Bundle {
 			c := Pick(rng, CollisionKinds)
 			if single {
 				c = Pick(rng, []string{"generatedName", "paramsBodyTaken"})
+				b.Collision(c)
+			} else if Chance(rng, 60) {
+				ws := collisionWhereSets()
+				b.CollisionX(Pick(rng, CollisionRels), Pick(rng, CollisionSchemaKinds), ws[rng.IntN(len(ws))], Chance(rng, 50))
+			} else {
+				b.Collision(c)
 			}
-			b.Collision(c)
 		case k < 88:
 			r := Pick(rng, NonSchemaRefKinds)
 			if single {
@@ -393,4 +408,106 @@ func RndBundle(rng *rand.Rand, maxFeatures int) *Bundle {
 		}
 	}
 	return b
+}
+
+// ---- collision matrix: name relation x imported schema kind x where the referrers are ----
+
+var CollisionRels = []string{"exact", "case", "threeWay"}
+var CollisionSchemaKinds = []string{"object", "prim", "array", "map", "enum"}
+var CollisionReferrers = []string{"defAlias", "defProperty", "defItems", "defAllOf", "defAddProps", "opParam", "codeResponse", "defaultResponse", "sharedParam", "sharedResponse", "respItems", "respProperty"}
+
+func (b *Bundle) refFreeSchema(kind string) jx.Obj {
+	switch kind {
+	case "prim":
+		return jx.Obj{"type": "string", "format": "date", "description": b.lbl("cprim")}
+	case "array":
+		return jx.Obj{"type": "array", "description": b.lbl("carr"), "items": jx.Obj{"type": "integer"}}
+	case "map":
+		return jx.Obj{"type": "object", "description": b.lbl("cmap"), "additionalProperties": jx.Obj{"type": "string"}}
+	case "enum":
+		return jx.Obj{"type": "string", "description": b.lbl("cenum"), "enum": jx.Arr{"a", "b"}}
+	}
+	return b.Obj()
+}
+
+func (b *Bundle) referFrom(where, ref string, used bool) {
+	r := jx.Obj{"$ref": ref}
+	useDef := func(name string) {
+		if used {
+			op := b.Op(b.newPath(), Pick(b.rng, MethodsAll), Chance(b.rng, 70))
+			jx.AsObj(op["responses"])["200"] = jx.Obj{"description": b.lbl("u"), "schema": jx.Obj{"$ref": "#/definitions/" + jx.EscTok(name)}}
+		}
+	}
+	switch where {
+	case "defAlias":
+		n := b.lbl("alias")
+		b.Def(n, r)
+		useDef(n)
+	case "defProperty":
+		n := b.lbl("holder")
+		b.Def(n, jx.Obj{"type": "object", "description": b.lbl("hd"), "properties": jx.Obj{"inner": r, "other": jx.Obj{"type": "string"}}})
+		useDef(n)
+	case "defItems":
+		n := b.lbl("arrHolder")
+		b.Def(n, jx.Obj{"type": "array", "description": b.lbl("hd"), "items": r})
+		useDef(n)
+	case "defAllOf":
+		n := b.lbl("allHolder")
+		b.Def(n, jx.Obj{"description": b.lbl("hd"), "allOf": jx.Arr{b.Obj(), r}})
+		useDef(n)
+	case "defAddProps":
+		n := b.lbl("mapHolder")
+		b.Def(n, jx.Obj{"type": "object", "description": b.lbl("hd"), "additionalProperties": r})
+		useDef(n)
+	case "respItems":
+		b.Place("codeResponse", b.Hold("items", r, 1, ""), "")
+	case "respProperty":
+		b.Place("codeResponse", b.Hold("property", r, 1, ""), "")
+	default:
+		b.Place(where, r, "")
+	}
+}
+
+// CollisionX plants: a root definition N, an imported $ref-free definition whose name relates to N as `rel`,
+// of the given schema kind, referred to from each place of `where` (in that order).
+func (b *Bundle) CollisionX(rel, kind string, where []string, aliasUsed bool) {
+	b.Tag("collisionx:" + rel)
+	b.Tag("cell:collisionx/" + rel + "/" + kind + "/" + strings.Join(where, "+"))
+	k := strconv.Itoa(b.id())
+	local := "thing" + k
+	remote := local
+	if rel == "case" {
+		remote = "Thing" + k
+	}
+	b.Def(local, b.refFreeSchema(Pick(b.rng, CollisionSchemaKinds)))
+	if Chance(b.rng, 70) {
+		op := b.Op(b.newPath(), Pick(b.rng, MethodsAll), true)
+		jx.AsObj(op["responses"])["200"] = jx.Obj{"description": b.lbl("loc"), "schema": jx.Obj{"$ref": "#/definitions/" + local}}
+	}
+	b.AuxDef("sub/a.json", remote, b.refFreeSchema(kind))
+	ref := "sub/a.json#/definitions/" + remote
+	for _, w := range where {
+		b.referFrom(w, ref, aliasUsed)
+	}
+	if rel == "threeWay" {
+		third := "THING" + k
+		b.AuxDef("other/c.json", third, b.refFreeSchema(kind))
+		for _, w := range where {
+			b.referFrom(w, "other/c.json#/definitions/"+third, aliasUsed)
+		}
+	}
+	b.Tag("multi-doc")
+}
+
+func collisionWhereSets() [][]string {
+	var out [][]string
+	for _, w := range CollisionReferrers {
+		out = append(out, []string{w})
+	}
+	out = append(out, [][]string{
+		{"defProperty", "codeResponse"}, {"defAlias", "defProperty"}, {"defAlias", "codeResponse"}, {"defItems", "opParam"},
+		{"defAllOf", "defaultResponse"}, {"defProperty", "defProperty"}, {"codeResponse", "opParam"}, {"defAddProps", "respItems"},
+		{"defAlias", "defItems", "codeResponse"}, {"defProperty", "respProperty", "sharedResponse"},
+	}...)
+	return out
 }
